@@ -208,7 +208,7 @@ fn exhaustive_cut_sets(len: usize) -> Vec<Vec<usize>> {
 }
 
 pub fn run(ctx: &Ctx) -> i32 {
-    let (shards, cases) = ctx.tier.pick((8, 500), (64, 6000));
+    let (shards, cases) = ctx.tier.pick((16, 2000), (64, 6000));
     let (mut stats, mut viol) = run_shards(
         ctx,
         "random",
